@@ -75,6 +75,11 @@ EVERY source, position and mode -/
 theorem C16_html_inward_nested (xml : Bool) (pos : Int) (s : Str) (special : List (Str × Option (List Str))) :
     ChainOK (inwardLoop xml pos (scan s special) []) := H.inward_nested xml pos s special
 
+/-- HTML: the first entry of `balanced_inward()` is the element AT the position (its range contains the position), for every source -/
+theorem C16_html_inward_at_position (xml : Bool) (pos : Int) (s : Str) (special : List (Str × Option (List Str))) (m : Matched)
+    (h : (inwardLoop xml pos (scan s special) []).head? = some m) : (m.start : Int) ≤ pos ∧ pos ≤ (m.stop : Int) :=
+  H.inward_head_contains xml pos (scan s special) [] m h
+
 example : (outwardLoop false 8 (scan ("<div><p>x</p></div>".toList.map Char.toNat)) [] []).length = 2 := by decide +kernel
 
 end EmmetProps
